@@ -26,6 +26,12 @@ C15(r) == LET cfg == Config(r.cfg)  re == Forest(r.reparsed) IN
   /\ r.helper_eq
   /\ (r.cfg \in StandardNames => Clean(re, cfg) = re)
   /\ ((r.cfg \in StandardNames /\ Safe(Forest(r.before), cfg) /\ NoDeprecated(Forest(r.before))) => Forest(r.after) = Forest(r.before))
-Check14 == C14(Rec[i]) \/ PrintT(<<"MISMATCH", i>>)
+\* "text ... kept in order", as seen by an HTML parser: writing the sanitised tree and parsing it again keeps the text where it is
+RECURSIVE TextOfNode(_)
+RECURSIVE TextOfForest(_)
+TextOfForest(f) == IF f = <<>> THEN <<>> ELSE TextOfNode(f[1]) \o TextOfForest(Tail(f))
+TextOfNode(n) == IF n.k = "text" THEN n.text ELSE TextOfForest(n.kids)
+OrderKept(r) == r.panic \/ TextOfForest(Forest(r.reparsed)) = TextOfForest(Forest(r.after))
+Check14 == (C14(Rec[i]) \/ PrintT(<<"MISMATCH", i>>)) /\ (OrderKept(Rec[i]) \/ PrintT(<<"ORDER", i>>))
 Check15 == (Rec[i].cfg \notin StandardNames) \/ C15(Rec[i]) \/ PrintT(<<"MISMATCH", i>>)
 =============================================================================
